@@ -5,6 +5,7 @@ import (
 	"fmt"
 	"net"
 	"strings"
+	"time"
 
 	"github.com/anacrolix/dht/v2"
 	"github.com/anacrolix/dht/v2/krpc"
@@ -254,7 +255,14 @@ func c08(c *evid.Ctx) {
 				from = append(from, p.from)
 				srcs[p.from.String()] = true
 			}
-			by, all, err := n.Exchange(nil, msgs, from)
+			// Half of the bursts arrive all at once, the others trickle in with gaps of the order of
+			// the time it takes to handle and answer one query.
+			var gap func() time.Duration
+			if r.Bool() {
+				gr := r.Fork("gap")
+				gap = func() time.Duration { return time.Duration(gr.Intn(60)) * time.Microsecond }
+			}
+			by, all, err := n.ExchangePaced(nil, msgs, from, gap)
 			if err != nil {
 				c.Inconclusive(err.Error())
 				break
